@@ -4,6 +4,7 @@
 import PgVerif.Proofs.HeapFile
 import PgVerif.Proofs.Pglz
 import PgVerif.Model.Toast
+import PgVerif.Proofs.InlineComp
 namespace PgVerif.Proofs.Toast
 open PgVerif PgVerif.Model PgVerif.Model.Toast PgVerif.Proofs
 set_option linter.unusedVariables false
@@ -63,8 +64,13 @@ theorem readVarlena_total (data : Bytes) : ∃ r, readVarlena data = .ok r := by
           · exact ⟨_, rfl⟩
           · rename_i hc
             simp only [Bool.or_eq_true, decide_eq_true_eq, not_or, Nat.not_le, Nat.not_lt] at hc
-            rw [slice_ok _ _ _ (by omega) (by omega)]
-            exact ⟨_, rfl⟩
+            split
+            · rename_i hz
+              simp only [Bool.and_eq_true, decide_eq_true_eq, ge_iff_le] at hz
+              obtain ⟨v, hv⟩ := Proofs.InlineComp.inlineDecompress_total data (rd 4 (data.drop 0) >>> 2) (by omega) (by omega)
+              rw [hv]; exact ⟨_, rfl⟩
+            · rw [slice_ok _ _ _ (by omega) (by omega)]
+              exact ⟨_, rfl⟩
 
 theorem chunkOf_total (tdata : Bytes) : ∃ r, chunkOf tdata = .ok r := by
   unfold chunkOf
@@ -144,97 +150,6 @@ theorem readTOASTTable_total (data : Bytes) : ∃ r, readTOASTTable data = .ok r
   have : readTOASTTuples data = .ok ts := hts
   simp only [this, ok_bind]
   exact collectM_total _ _ (fun t => chunkOf_total _)
-
-/-! ### decompressors -/
-
-open PgVerif.Model.Pglz PgVerif.Proofs.Pglz in
-theorem items_total (raw n ctrl bit : Nat) (data out : Bytes) : ∃ r, items raw n ctrl bit data out = .ok r := by
-  induction n generalizing bit data out with
-  | zero => exact ⟨_, rfl⟩
-  | succ n ih =>
-    simp only [items]
-    split
-    · exact ⟨_, rfl⟩
-    · split
-      · rcases data with _ | ⟨b0, _ | ⟨b1, rest⟩⟩
-        · exact ⟨_, rfl⟩
-        · exact ⟨_, rfl⟩
-        · simp only []
-          split
-          · rcases rest with _ | ⟨b2, r2⟩
-            · exact ⟨_, rfl⟩
-            · simp only []
-              split
-              · exact ih ..
-              · rename_i hc
-                rw [copyLoopM_eq _ _ _ (by omega) _ _ _ (by omega)]
-                simp only [ok_bind]
-                exact ih ..
-          · split
-            · exact ih ..
-            · rename_i hc
-              rw [copyLoopM_eq _ _ _ (by omega) _ _ _ (by omega)]
-              simp only [ok_bind]
-              exact ih ..
-      · rcases data with _ | ⟨b, rest⟩
-        · exact ⟨_, rfl⟩
-        · exact ih ..
-
-open PgVerif.Model.Pglz in
-theorem decompress_total (raw f : Nat) (data out : Bytes) : ∃ r, decompress raw f data out = .ok r := by
-  induction f generalizing data out with
-  | zero => exact ⟨_, rfl⟩
-  | succ f ih =>
-    simp only [decompress]
-    split
-    · exact ⟨_, rfl⟩
-    · rcases data with _ | ⟨ctrl, rest⟩
-      · exact ⟨_, rfl⟩
-      · obtain ⟨r, hr⟩ := items_total raw 8 ctrl.toNat 0 rest out
-        simp only [hr, ok_bind]
-        exact ih ..
-
-theorem decompressPGLZ_total (data : Bytes) (raw : Nat) : ∃ r, Pglz.decompressPGLZ data raw = .ok r := by
-  unfold Pglz.decompressPGLZ
-  split
-  · exact ⟨_, rfl⟩
-  · obtain ⟨r, hr⟩ := decompress_total raw (data.length + 1) data []
-    simp only [hr, ok_bind]
-    exact ⟨_, rfl⟩
-
-open PgVerif.Model.Lz4 PgVerif.Proofs.Pglz in
-theorem lz4_loop_total (raw f : Nat) (data out : Bytes) : ∃ r, loop raw f data out = .ok r := by
-  induction f generalizing data out with
-  | zero => exact ⟨_, rfl⟩
-  | succ f ih =>
-    simp only [loop]
-    split
-    · exact ⟨_, rfl⟩
-    · rcases data with _ | ⟨token, d1⟩
-      · exact ⟨_, rfl⟩
-      · simp only []
-        generalize hr : (if token.toNat >>> 4 = 15 then readExt d1 15 else (token.toNat >>> 4, d1)) = r
-        generalize hl : (if r.1 > r.2.length then r.2.length else r.1) = litLen
-        split
-        · exact ⟨_, rfl⟩
-        · rcases hd : List.drop litLen r.2 with _ | ⟨o0, _ | ⟨o1, d4⟩⟩
-          · exact ⟨_, rfl⟩
-          · exact ⟨_, rfl⟩
-          · simp only []
-            split
-            · exact ⟨_, rfl⟩
-            · split
-              · exact ⟨_, rfl⟩
-              · rename_i h0 hgt
-                rw [copyLoopM_eq _ _ _ (by omega) _ _ _ (by omega)]
-                simp only [ok_bind]
-                exact ih ..
-
-theorem decompressLZ4_total (data : Bytes) (raw : Nat) : ∃ r, Lz4.decompressLZ4 data raw = .ok r := by
-  unfold Lz4.decompressLZ4
-  split
-  · exact ⟨_, rfl⟩
-  · exact lz4_loop_total ..
 
 theorem decompressStored_total (zlib : Bytes → Nat → Option Bytes) (p : Ptr) (data : Bytes) (h : 4 ≤ data.length) :
     ∃ r, decompressStored zlib p data = .ok r := by
